@@ -49,7 +49,9 @@ K64_PROOFS = [('scalar_mul_512b', 'Kernel/ScalarMul4x64.vo', 'scalar_mul_512b_wp
 PROOFS = {'secp256k1_fe_mul_inner': ('Kernel/Field5x52.vo', 'fe_mul_inner_correct'),
           'secp256k1_fe_sqr_inner': ('Kernel/Field5x52Sqr.vo', 'fe_sqr_inner_correct')}
 # proofs over the regenerated branch-free primitives: (function, .vo, theorem)
-CT_PROOFS = [('secp256k1_fe_impl_normalize_weak', 'Kernel/FieldNormalize2.vo', 'fe_normalize_weak_correct'), ('secp256k1_fe_impl_normalizes_to_zero', 'Kernel/FieldNormalize2.vo', 'fe_normalizes_to_zero_correct'),
+CT_PROOFS = [('secp256k1_fe_impl_mul_int_unchecked', 'Kernel/MorePrims.vo', 'fe_mul_int_correct'), ('secp256k1_fe_impl_to_storage', 'Kernel/MorePrims.vo', 'fe_to_storage_correct'),
+             ('secp256k1_fe_impl_from_storage', 'Kernel/MorePrims.vo', 'fe_from_storage_correct'), ('secp256k1_scalar_cond_negate', 'Kernel/MorePrims.vo', 'scalar_cond_negate_correct'),
+             ('secp256k1_fe_impl_normalize_weak', 'Kernel/FieldNormalize2.vo', 'fe_normalize_weak_correct'), ('secp256k1_fe_impl_normalizes_to_zero', 'Kernel/FieldNormalize2.vo', 'fe_normalizes_to_zero_correct'),
              ('secp256k1_scalar_add', 'Kernel/ScalarAdd.vo', 'scalar_add_correct'), ('secp256k1_scalar_half', 'Kernel/ScalarAdd.vo', 'scalar_half_correct'),
              ('secp256k1_fe_impl_add', 'Kernel/FieldPrims.vo', 'fe_add_correct'), ('secp256k1_fe_impl_negate_unchecked', 'Kernel/FieldPrims.vo', 'fe_negate_correct'),
              ('secp256k1_fe_impl_half', 'Kernel/FieldPrims.vo', 'fe_half_correct'), ('secp256k1_scalar_negate', 'Kernel/FieldPrims.vo', 'scalar_negate_correct'),
